@@ -25,7 +25,10 @@ public:
     template <typename Poly>
     void bvisit_upoly(const Poly &x)
     {
-        if (x.end() == ++x.begin()) {
+        if (x.begin() == x.end()) {
+            // the zero polynomial: there is no first term to step over
+            precedence = PrecedenceEnum::Atom;
+        } else if (x.end() == ++x.begin()) {
             auto it = x.begin();
             precedence = PrecedenceEnum::Atom;
             if (it->second == 1) {
